@@ -17,7 +17,7 @@ INFO = {
                    'continued until quotes balance.',
     'bounds': 'texts of total length <= 3 (quick) / <= 5 (thorough) cut into 1-3 pieces of 0-2 (quick) / 0-3 characters; chunk sizes 1, 2, 3, 1024; policies quoted, quoted_rfc, simple, '
               'whitespace, monocolumn; comment prefix on/off; header on/off; encoding None / utf-8 / latin-1 (BOM branch)',
-    'outside': 'partitions of the BYTES of a multi-byte encoding (io.TextIOWrapper incremental decoder: C, trusted); longer texts',
+    'outside': 'byte-level partitions with SYMBOLIC content (io.TextIOWrapper is C: the byte shards use concrete multi-byte samples and symbolic cut positions); longer texts',
     'assumptions': ['encode_input_stream replaced by identity (text-level model); the stub stream never returns more than asked and returns "" only at EOF',
                     'reference reader validated concretely against 500k short texts during development (tools/dev_reader_diff.py) and against the repository test vectors'],
     'trusted': ['crosshair-tool 0.0.110', 'z3', 'CPython 3.12.1 re'],
@@ -62,6 +62,33 @@ return (got, exp)
                                                   'bounds': 'every text delivered as pieces of lengths %s (any Unicode)' % (lens,)})
 
 
+BYTE_SAMPLES = {
+    'e-acute': 'id,näme\n1,éa\n2,z\n',
+    'euro-crlf': 'a,€\r\n€,"b\r\nc"\r\n',
+    'emoji': '\U0001F600,x\n#\U0001F600\ny,é',
+    'bom': '﻿h1,h2\né,2\n',
+}
+
+
+def _bytes_obl(sample, enc, policy, chunk, timeout, header=False, comment=None):
+    """Byte-level partition through the REAL encode_input_stream / io.TextIOWrapper: content concrete, the two cut positions symbolic."""
+    text = BYTE_SAMPLES[sample]
+    data = text.encode('utf-8')
+    n = len(data)
+    body = indent("""
+c1 = qh.concretize(k1, range(0, N + 1))
+c2 = qh.concretize(k2, range(0, N + 1))
+got = bytesh.read_bytes(bytesh.cut(DATA, c1, c2), ENC, ',', POLICY, HEADER, COMMENT, CHUNK)
+exp = csvref.expected_read(DATA.decode(ENC), ',', POLICY, HEADER, COMMENT, ENC)
+return (got, exp)
+""")
+    imports = 'from vf import bytesh, qh\nfrom vf.refmodel import csvref\nDATA = %r\nN = %d\nENC = %r\nPOLICY = %r\nHEADER = %r\nCOMMENT = %r\nCHUNK = %r\n' % (data, n, enc, policy, header, comment, chunk)
+    src = harness(imports, [('k1', 'int'), ('k2', 'int')], ['0 <= k1 <= k2 <= %d' % n], body)
+    return Obl('read_bytes[%s|%s|%s|chunk=%d]' % (sample, enc, policy, chunk), src, timeout=timeout,
+               meta={'function': 'rbql_csv.encode_input_stream + CSVRecordIterator over a raw byte stream',
+                     'bounds': 'concrete %d-byte sample %r, every partition into <= 3 raw reads (cut positions symbolic), chunk size %d' % (n, sample, chunk)})
+
+
 def _partitions(total, maxpieces, maxlen):
     res = []
     for k in range(1, maxpieces + 1):
@@ -90,7 +117,16 @@ def obligations(tier, seed):
             for chunk in (1, 1024):
                 obs.append(_obl(cfg, (1,), chunk, 200, prefix=prefix))
                 obs.append(_obl(cfg, (1, 1), chunk, 200, prefix=prefix))
+        # byte-level partitions of multi-byte samples through the real decoding layer
+        for smp, pol, chunk in (('e-acute', 'quoted', 1), ('euro-crlf', 'quoted_rfc', 2), ('bom', 'quoted', 1024), ('emoji', 'simple', 3)):
+            obs.append(_bytes_obl(smp, 'utf-8', pol, chunk, 300, header=(smp == 'bom'), comment=('#' if smp == 'emoji' else None)))
+        obs.append(_bytes_obl('e-acute', 'latin-1', 'quoted', 1, 300))
     else:
+        for smp in BYTE_SAMPLES:
+            for pol in ('quoted', 'quoted_rfc', 'simple'):
+                for chunk in (1, 2, 3, 4, 1024):
+                    obs.append(_bytes_obl(smp, 'utf-8', pol, chunk, 900, header=(smp == 'bom'), comment=('#' if smp == 'emoji' else None)))
+            obs.append(_bytes_obl(smp, 'latin-1', 'quoted', 1, 900))
         for cfg, prefix in (('quoted-space', '#\n#\n'), ('rfc+comment', '#\n#x\n'), ('simple+comment', '#\n\n#\n'), ('rfc', '"a\n'), ('quoted+hdr+bom', '\ufeffh\n\n'), ('monocolumn+comment2', '//\n/\n'),
                             ('rfc+comment', '"\n#\n'), ('quoted', 'a,b\r\n'), ('rfc+hdr', 'h;"\r\n";2\r')):
             for chunk in (1, 2, 3, 1024):
